@@ -105,6 +105,58 @@ def in_cycle(b, bb):
     return bb in b.reachable_after(bb)
 
 
+def pure_scan(b, bb):
+    """the loop around block bb writes nothing that is read after (or carried around) the loop and calls nothing through
+    `&mut` except the iterator's own next(): all it can do is leave early (all / any / find-a-mismatch style)"""
+    fwd = b.reachable_after(bb)
+    scc = {x for x in fwd if bb in b.reachable_after(x)} | {bb}
+    assigned = set()
+    for i in scc:
+        for st in b.blocks[i]["stmts"]:
+            if st["k"] == "assign":
+                assigned.add(st["place"]["l"])
+        t = b.blocks[i]["term"]
+        if t["k"] == "call":
+            assigned.add(t["dest"]["l"])
+            callee = t["func"].get("fn", {}).get("path", "")
+            if callee.rsplit("::", 1)[-1] in ("next", "into_iter", "iter", "deref", "as_ref", "clone", "branch", "from_residual"):
+                continue
+            if any(a.startswith("&mut ") for a in t.get("arg_tys", [])):
+                return False
+    # loop-carried or escaping values: assigned in the loop, read outside it (drop flags and return slot apart)
+    for i, blk in enumerate(b.blocks):
+        if i in scc:
+            continue
+        reads = set()
+        for st in blk["stmts"]:
+            if st["k"] == "assign":
+                rv = st["rv"]
+                for k in ("o", "a", "b"):
+                    if isinstance(rv.get(k), dict) and rv[k].get("k") in ("copy", "move"):
+                        reads.add(rv[k]["l"])
+                for o in rv.get("ops", []):
+                    if isinstance(o, dict) and o.get("k") in ("copy", "move"):
+                        reads.add(o["l"])
+                if "place" in rv:
+                    reads.add(rv["place"]["l"])
+        t = blk["term"]
+        for a in t.get("args", []) if t["k"] == "call" else []:
+            if isinstance(a, dict) and a.get("k") in ("copy", "move"):
+                reads.add(a["l"])
+        if t["k"] == "switch" and isinstance(t["discr"], dict) and t["discr"].get("k") in ("copy", "move"):
+            reads.add(t["discr"]["l"])
+        hit = {l for l in (reads & assigned) if b.local_ty(l) != "bool" and l != 0}
+        # values computed in the last iteration and consumed on the exit path (the early answer) are order-free only if
+        # they do not depend on the element: be strict - none allowed except the iterator's Option being matched
+        if hit and i in fwd:
+            tys = {b.local_ty(l) for l in hit}
+            ok_ty = lambda t: t.startswith(("std::option::Option<", "isize")) or \
+                t.startswith("std::ops::ControlFlow<std::option::Option<std::convert::Infallible>")     # `?` on None: carries no data
+            if not all(ok_ty(t) for t in tys):
+                return False
+    return True
+
+
 def closure_callees(lib, b, term):
     """crate-local / std callees of the closure or fn item passed as an argument of `term`."""
     out = set()
@@ -139,6 +191,22 @@ def closure_callees(lib, b, term):
 STD_PURE = ("std::", "core::", "alloc::", "<std::", "<core::", "<alloc::", "<&", "<T as", "<I as", "<[", "<(")
 
 
+def _display_owned(lib, b):
+    """a helper that belongs only to rendering functions (extracted from Variable::string / a Display impl)"""
+    try:
+        from ..owners import for_crate, base
+        owners = for_crate(lib).of(b.id)
+    except Exception:
+        return False
+    if not owners or base(b.id) in owners:
+        return False
+    for o in owners:
+        ob = lib.body(o)
+        if not (o in DISPLAY_FNS or (ob is not None and ob.impl_trait in DISPLAY_TRAITS)):
+            return False
+    return True
+
+
 def judge_site(lib, b, start, table, display_exempt=True):
     """Returns (class, detail). class in insensitive/display/table/sensitive."""
     tr = Trace(b)
@@ -149,7 +217,7 @@ def judge_site(lib, b, start, table, display_exempt=True):
     methods = sorted({m for m, _, _, _ in terms})
     positional = any(set(p) & POSITIONAL for _, _, p, _ in terms)
     sig = "%s|%s" % (start.callee.rsplit("::", 1)[-1], ",".join(methods) or "-")
-    if display_exempt and (b.impl_trait in DISPLAY_TRAITS or b.id in DISPLAY_FNS):
+    if display_exempt and (b.impl_trait in DISPLAY_TRAITS or b.id in DISPLAY_FNS or _display_owned(lib, b)):
         return "display", sig
     if not terms:
         # iterator returned to the caller (MultiType::iter / into_iter wrappers): judged at the callers
@@ -190,7 +258,11 @@ def judge_site(lib, b, start, table, display_exempt=True):
             others = {mm for mm, _, _, _ in terms if mm != "next"}
             if others & FOLDS:
                 continue        # seed of a fold over the same iterator: judged with the fold
+            if not in_cycle(b, bb) and any(mm == "next" and in_cycle(b, b2) and pure_scan(b, b2) for mm, _, _, b2 in terms):
+                continue        # seed compared against the rest by an effect-free scan of the same iterator
             if in_cycle(b, bb):
+                if pure_scan(b, bb):
+                    continue    # a scan without loop-carried state or effects: it can only leave early with a fixed answer
                 bad.append("loop over the elements (for / while let)")
             else:
                 bad.append("next(): picks the first element in hash order, the rest is dropped")
@@ -256,8 +328,9 @@ def run_order(ctx):
         for c in b.calls:
             if is_start(c):
                 got[b.id] = judge_site(fx, b, c, {})[0]
-    for want in ("hashorder::pick_first", "hashorder::collect_vec", "hashorder::noncommutative_fold"):
+    for want in ("hashorder::pick_first", "hashorder::collect_vec", "hashorder::noncommutative_fold", "hashorder::loop_accumulate"):
         res.control(got.get(want) == "sensitive", want)
+    res.control(got.get("hashorder::loop_scan_all_equal") == "insensitive", "negative control hashorder::loop_scan_all_equal (effect-free scan) accepted")
     res.control(got.get("hashorder::all_members") == "insensitive" and got.get("hashorder::into_set") == "insensitive",
                 "negative controls hashorder::all_members / into_set accepted")
     return res
